@@ -74,12 +74,15 @@ func (m *MessageClientKeyExchange) Unmarshal(data []byte) error {
 	}
 
 	if m.KeyExchangeAlgorithm.Has(types.KeyExchangeAlgorithmEcdhe) {
+		if offset >= len(data) {
+			return dtlserrors.ErrBufferTooSmall
+		}
 		publicKeyLength := int(data[offset])
-		if publicKeyLength > len(data)-1-offset {
+		if publicKeyLength == 0 || publicKeyLength > len(data)-1-offset {
 			return dtlserrors.ErrBufferTooSmall
 		}
 
-		m.PublicKey = bytes.Clone(data[offset+1:])
+		m.PublicKey = bytes.Clone(data[offset+1 : offset+1+publicKeyLength])
 	}
 
 	return nil
